@@ -217,6 +217,7 @@ def hyp_search(
     budget_s=None,
     max_failures=1,
     shrink_budget_s=None,
+    skip_first=0,
 ):
     """Drive prop(case) over `strategy`.
 
@@ -224,6 +225,10 @@ def hyp_search(
     cases outside the domain.  Failures that classify() attributes to an open
     known finding are counted and do not stop the search.  Returns a list of
     (case, msg) with the shrunk counterexample (at most one per call).
+
+    skip_first: number of leading generated examples that are not evaluated.  Hypothesis starts every run with the
+    minimal example of the strategy (the empty program); a check that can afford two cases per worker would spend half
+    of them on it.
     """
     import hypothesis
     from hypothesis import HealthCheck, Phase, given, settings
@@ -232,13 +237,14 @@ def hyp_search(
     if shrink_budget_s is None:
         shrink_budget_s = float(os.environ.get("VERIF_SHRINK_S", "60"))
     last = {}
+    seen = [0]
     phases = [Phase.explicit, Phase.generate]
     if shrink:
         phases.append(Phase.shrink)
 
     @hypothesis.seed(seed)
     @settings(
-        max_examples=n,
+        max_examples=n + skip_first,
         database=None,
         deadline=None,
         derandomize=False,
@@ -249,6 +255,9 @@ def hyp_search(
     )
     @given(strategy)
     def test(case):
+        if "case" not in last and seen[0] < skip_first:
+            seen[0] += 1
+            return
         if t_end is not None and time.time() > t_end and "case" not in last:
             stats.budget_skipped += 1
             return
